@@ -10,6 +10,7 @@ func init() {
 	register("C20", "model_checking", func(run *ev.Run, tier string) string {
 		for _, b := range []string{drv.BBolt, drv.Badger} {
 			eng.HostileSweep(run, b)
+			eng.ConcurrentClose(run, b)
 		}
 		eng.APISweep(run)
 		eng.KindLiteralSweep(run, drv.BBolt)
